@@ -44,7 +44,9 @@ class Gram:
         if ua.get("kind") == "user":
             names = ua.get("arg_names") or []
             i = nts[0][0]
-            if not (i < len(names) and (ua.get("code") or "").strip() == names[i] and names[i] not in ("", "_")):
+            code = (ua.get("code") or "").strip()
+            unit_ty = code in ("()", "") and (self.nts.get(nts[0][1], {}).get("type") == "()")
+            if not unit_ty and not (i < len(names) and code == names[i] and names[i] not in ("", "_")):
                 return None
         return nts[0][1]
 
